@@ -339,7 +339,7 @@ def predXC (req obs : List String) : Option Bool :=
       let delivered := (argcs.map fun n => n - 1 - fixed.length).foldl (· + ·) 0
       -- the working directory of the command each path was handed to
       let obsCwds := (argcs.zip cwds).flatMap fun (n, c) => List.replicate (n - 1 - fixed.length) c
-      let expCwds := reached.flatMap fun e => e.argv.map fun _ => (match e.cwd with | none => [46] | some d => normDir d)
+      let expCwds := reached.map fun e => (match e.cwd with | none => [46] | some d => normDir d)
       pure (delivered == reached.length && obsCwds == expCwds && ((st == 0) == (ref.ret == 0 && script.all (· == 0))))
     | _, _ => pure false
   | _, _ => none
